@@ -936,5 +936,14 @@ def run(repo, rep):
     check_r11c(repo, rep, uni)
     check_r11d(repo, rep, uni)
     check_r11e(repo, rep, uni)
+    # "lazy ones only on demand" also needs the plumbing to be lazy: every
+    # collection argument travels through Iterable.convert, limit_iterable
+    # and memorize; if one of them reads ahead, the per-element lambdas of
+    # the operator upstream run for elements nobody asked for
+    from sa.rules import c14
+    from sa import consume
+    rep.rule('R14d', 'see C14: Iterable.convert, utils.limit_iterable and '
+             'utils.memorize do not read ahead of their consumer')
+    c14.check_plumbing(repo, rep, consume.Consumption(repo, uni))
     rep.count(evaluation_sites=len(sites),
               overloads=len(uni.reg.overloads))
